@@ -77,7 +77,7 @@ ADD = {
  "C07": " A third of the random specifications contain masters with placeholders in their path (also placeholder-only paths, nesting in themselves); a fifth of the trees carry elements with ids outside the specification (read with unknown ids tolerated).",
  "C08": " Scale documents (hundreds to thousands of items inside one buffered master, hundreds of nesting levels of a buffered id) are part of the input mix.",
  "C10": " Histories may contain calls the writer rejects (judged against the accepted calls only), continue with a second document after a flush() in the middle, leave a master that can never be closed (flush, flush, End, flush, into_inner), or run against a destination whose own flush() fails once.",
- "C11": " Chain masters with placeholders in their path get unknown size where no later chain master would end them; a mid-document variant renders only the tail of a chain (all unknown-size) followed by an element that ends all of it.",
+ "C11": " Chain masters with placeholders in their path get unknown size where no later chain master would end them; a mid-document variant renders only the tail of a chain (all unknown-size) followed by an element that ends all of it; on the writer side every master is offered as Start and as an empty Full item, each with default and unknown size.",
  "C12": " The size limit is left at its default, removed (None) or generous.",
  "C13": " The limit probe uses the default limit or an explicit 2^16 / 2^20 and declared sizes from a lattice around every 2^(7k) above it in every width that can hold them; a third of the single-fault parses go through short-read sources; tolerance lists may repeat entries.",
  "C14": " A third of the documents mix unknown-size masters in; one insertion in ten lets the source fail once while try_recover() scans (always-clauses only).",
